@@ -718,6 +718,14 @@ class Sim:
         h = self.h
         dev_spec = scn["device"]
         device = B.build_device(dev_spec, mesh_from=self.mesh_from, history=scn.get("device_history"))
+        mv = scn.get("device_moved")
+        if mv:
+            # device life cycle: the meshed device is translated in place before it is used (the cached
+            # object is never touched: work on a copy that keeps the mesh)
+            device = device.copy(with_mesh=True)
+            xi_ = dev_spec["layer"]["xi"]
+            device.translate(mv["dx"] * xi_, mv["dy"] * xi_, inplace=True)
+            h.probe("device_moved")
         if scn.get("device_restored"):
             # device life cycle: the meshed device was saved in an earlier session and the run uses the
             # object read back from that file
